@@ -12,4 +12,4 @@ for d in /verif/seeded/$PAT/; do
   VERIF_REPO=$WT /verif/check $prop quick > /tmp/sweep-$$.out 2>&1; rc=$?
   echo "$id $prop exit=$rc $(grep -m1 'VIOLATION\|MACHINERY\|held' /tmp/sweep-$$.out | cut -c1-160)"
 done
-cd /; git -C /repo worktree remove --force $WT; rm -f /tmp/sweep-$$.out
+cd /; git -C /repo worktree remove --force $WT; rm -f /tmp/sweep-$$.out; rm -rf /tmp/verif-evidence-$(basename $WT)
